@@ -1906,6 +1906,9 @@ where
             let key = self.parse_str(strbuf)?;
             self.parse_object_clo()?;
             if let Some(val) = mkeys.get(key.deref()) {
+                // the key is not needed any more: the buffer an escaped key was decoded into
+                // must be empty again before descending
+                strbuf.clear();
                 self.get_many_rec(val, out, strbuf, remain, false)?;
                 if *remain == 0 {
                     break;
@@ -1961,7 +1964,9 @@ where
             let key = self.parse_str(strbuf)?;
             self.parse_object_clo()?;
             if let Some(val) = mkeys.get(key.deref()) {
-                // parse the child point tree
+                // parse the child point tree (the key is not needed any more: the buffer an
+                // escaped key was decoded into must be empty again before descending)
+                strbuf.clear();
                 self.get_many_rec(val, out, strbuf, remain, true)?;
                 if *remain == 0 {
                     break;
